@@ -375,7 +375,7 @@ def c05_run_r1_insert(ctx, facts):
         key = "insert-early" if i == 0 else "insert-loop"
         what = "insert routine (%s)" % ("nothing-to-do test" if i == 0 else "edit loop")
         c05.compare(ctx, P, key, what, c05.table_of_predicate(ctx, clo, P, key, what), clo.where())
-    cnt = im.calls_to(r"Iterator>::count$|::count$")
+    cnt = im.calls_to(r"Iterator>::count$|::count$|Iterator>::any$|::any$")
     tmp = im.calls_to(r"AsyncTempFile::new$")
     if ctx.check(len(cnt) == 1 and len(tmp) == 1, P, "anchor|early-exit", "early exit (count) and scratch creation found", im.where()):
         dom = cfg.dominators(im)
